@@ -414,6 +414,28 @@ func (m *monC05) checkCanaryPreference(s *Sim, t *Task, v *SyncView, nodes []str
 			for _, n := range candObjs {
 				if !seen[n.Name] && valid(n) && restarts[n.Name] < worst {
 					s.Violate("C15", "prefer-least-restarts", "", "%s: took a node with %d restarts while valid node %s has %d", t.Label(), worst, n.Name, restarts[n.Name])
+					// C12: is the choice explained by the restarts of pods that are not this ExtendedDaemonSet's
+					// (read through a pod list that was not scoped to its namespace and name label)?
+					alt := map[string]int{}
+					foreign := false
+					for _, p := range pods {
+						alt[p.Spec.NodeName] += sumRestarts(p)
+						foreign = foreign || (!isDaemonPod(p, v.EDS.Namespace, v.EDS.Name) && sumRestarts(p) > 0)
+					}
+					worstAlt, explained := 0, foreign && v.PodsRead
+					for _, a := range added {
+						if alt[a] > worstAlt {
+							worstAlt = alt[a]
+						}
+					}
+					for _, c := range candObjs {
+						if !seen[c.Name] && valid(c) && alt[c.Name] < worstAlt {
+							explained = false
+						}
+					}
+					if explained {
+						s.Violate("C12", "foreign-counted", "canary-nodes", "%s: the canary nodes %v are the least-restarted ones only if the restarts of pods that do not belong to %s/%s are counted too", t.Label(), added, v.EDS.Namespace, v.EDS.Name)
+					}
 					break
 				}
 			}
